@@ -212,8 +212,10 @@ PROPS["C04"]["theorems"] += ["Toxi.Link.C04_exec", "Toxi.Link.t_exec", "Toxi.Lin
                              "Toxi.Link.same_stageMove", "Toxi.Link.same_sinkMove", "Toxi.Link.same_bufferMove", "Toxi.Link.same_sourceMove"]
 # C16: linearizability theorem for the handlers that hold their lock across the effect (Proofs/Lemmas/Commit.lean)
 def _c16_extra():
-    PROPS["C16"]["lean_modules"] = PROPS["C16"]["lean_modules"] + ["Toxi.Proofs.Lemmas.Commit"]
-    PROPS["C16"]["theorems"] = PROPS["C16"]["theorems"] + ["Toxi.Conc.C16_commit_order", "Toxi.Conc.C16_linearizable", "Toxi.Conc.advance_calm"]
+    PROPS["C16"]["lean_modules"] = PROPS["C16"]["lean_modules"] + ["Toxi.Proofs.Lemmas.ToxicComm", "Toxi.Proofs.Lemmas.Commit"]
+    PROPS["C16"]["theorems"] = PROPS["C16"]["theorems"] + ["Toxi.Conc.C16_commit_order", "Toxi.Conc.C16_linearizable", "Toxi.Conc.advance_abs",
+                                                           "Toxi.Conc.toxic_commutes", "Toxi.Conc.via_comm", "Toxi.Conc.step_toxic_via",
+                                                           "Toxi.Conc.replacing_block", "Toxi.Conc.stopFirst_spec", "Toxi.Conc.abs_other"]
 # C15: the graceful end of a connection (Proofs/Lemmas/Graceful.lean)
 def _c15_extra():
     PROPS["C15"]["lean_modules"] = PROPS["C15"]["lean_modules"] + ["Toxi.Proofs.Lemmas.Graceful", "Toxi.Proofs.Lemmas.Rest", "Toxi.Proofs.Lemmas.Census"]
